@@ -519,6 +519,28 @@ func c09FixedList() []c09Fixed {
 		b.WriteString("def blk { x = a }\nbind blk -> struct\nbind blk -> struct\nprint a + \"s\"\n")
 		return b.String()
 	}})
+	// string constants that are not text: every single byte, and runs of continuation / lead / 0xFF bytes
+	// placed around the 4096-byte marks of a long constant (spelled with escapes)
+	l = append(l, c09Fixed{"string_constant_bytes", "in", func() string {
+		var b strings.Builder
+		for x := 1; x < 256; x++ {
+			if x == '"' || x == '\\' || x == '\n' {
+				continue
+			}
+			fmt.Fprintf(&b, "print \"\\x%02x\"\nprint \"\\x%02x\\x%02x\"\n", x, x, 255-x)
+		}
+		b.WriteString("def blk \"\\xe9\" { f = \"\\x80\"; g = \"\\xff\" + \"\\xc3\" }\nbind blk -> struct\n")
+		return b.String()
+	}})
+	for _, run := range []string{"\\x80", "\\xbf", "\\xc3", "\\xe6\\xbc", "\\xf0\\x9f\\x98", "\\xff", "\\xed\\xa0\\x80"} {
+		for _, at := range []int{4090, 4093, 4096, 8186, 8192} {
+			run, at := run, at
+			l = append(l, c09Fixed{"string_constant_bytes", "in", func() string {
+				lit := strOfLen(at, nil) + strings.Repeat(run, 7) + strOfLen(300, nil)
+				return "var s = \"" + lit + "\"\nprint s\ndef b { f = s }\n"
+			}})
+		}
+	}
 	l = append(l, c09Fixed{"many_constants", "in", func() string {
 		var b strings.Builder
 		for k := 0; k < 2400; k++ {
@@ -535,7 +557,7 @@ func init() {
 		Level: "exploration",
 		Rule: "metamorphic monitor (parsed vs dump->load): for each accepted program Dump must succeed, an independent decoder must recover exactly the program's parts and an independent encoder must reproduce the bytes; LoadProg through 6 reader behaviours (whole, 1 byte per read, halves, random chunks, zero-byte reads, data with EOF) and every 2-partition of small dumps must give a program with identical disassembly, output, blocks, binding, warnings and runtime error text; re-dump must be byte-identical. " +
 			"Workload: size-directed programs (string constants, identifiers and program names of 0..67825 bytes across every varint class and the 4096-byte buffers, code and source offsets beyond 67823, 2400+ constants), float constants of random bit patterns, and generated programs of all profiles. " +
-			"distinct = hash of dump; non-trivial = program accepted and dumped Also: string sizes 3..131 each with every 2-partition; LoadProg is always given another name than Parse (the dumped name must win); Prog.Load into a Prog that was disassembled, executed and traced before (results, re-dump, trace text and the text of an error kept from before the reload must be unaffected); sources with 65538 / 70000 lines and beyond 16 MiB; Dump into a pipe and /dev/null.",
+			"distinct = hash of dump; non-trivial = program accepted and dumped Also: string sizes 3..131 each with every 2-partition; LoadProg is always given another name than Parse (the dumped name must win); Prog.Load into a Prog that was disassembled, executed and traced before (results, re-dump, trace text and the text of an error kept from before the reload must be unaffected); sources with 65538 / 70000 lines and beyond 16 MiB; Dump into a pipe and /dev/null. String constants that are not text: every single byte value as a one-byte constant, and runs of continuation, lead, cut-character, surrogate and 0xFF bytes placed around offsets 4096 and 8192 of a long constant.",
 		Assumptions:   []string{"Execute of the parsed program is the reference for the loaded one", "in the thorough tier the same workload also runs under the race detector build"},
 		MinNontrivial: 300,
 		RaceAlso:      func(tier string) bool { return tier == "thorough" },
